@@ -15,7 +15,7 @@ import metric_learn as ml
 
 PID = 'C12'
 LEVEL = 'model_checking'
-RULE = ('LSML x prior {identity, covariance, random, SPD array} x weights {None, constant 5, ramp 1..n, ramp as list, ramp x 64} x '
+RULE = ('LSML x prior {identity, covariance, random, SPD array in C and in Fortran order} x weights {None, constant 5, ramp 1..n, ramp as list, ramp x 64} x '
         'tol {1e-2, 1e-3, 1e-4} x quadruplet sets {half of the constraints violated under the identity, all satisfied} x datasets; '
         'for each configuration the budgets max_iter = 1..K (K = 8 quick / 25 thorough) and an unbounded run; LSML_Supervised x '
         'prior x weights x seeds.  state = (configuration, budget); distinct_nontrivial = states whose matrix differs from the prior')
@@ -31,7 +31,7 @@ def V(site, clause, msg, triggers=(), **detail):
 
 
 WEIGHTS = ['none', 'const5', 'ramp', 'ramp_list', 'ramp64']
-PRIORS = ['identity', 'covariance', 'random', 'array']
+PRIORS = ['identity', 'covariance', 'random', 'array', 'array_F']      # array_F: the same SPD array, Fortran-ordered
 
 
 def make_weights(kind, n):
@@ -91,7 +91,7 @@ def run_case(spec):
         ds = data.dataset('R', seed) if dsn == 'R' else data.dataset(dsn)
         d = ds.d
         Q = (ds.quads if qs == 'mixed' else ds.quads_sat).copy()
-        prv = data.spd(d) if pr == 'array' else pr
+        prv = data.spd(d) if pr == 'array' else (np.asfortranarray(data.spd(d)) if pr == 'array_F' else pr)
         M0, M0inv = priors.prior_matrix(prv, Q, d, seed=1)
         vab, vcd = Q[:, 0] - Q[:, 1], Q[:, 2] - Q[:, 3]
         w = make_weights(wk, len(Q))
@@ -136,22 +136,25 @@ def run_case(spec):
                     sigs.add((dsn, pr, wk, qs, tol, mi))
                 if est.n_iter_ < mi and mi < 1000:
                     break          # later budgets reach the same state
-        # weight scale invariance: ramp vs ramp x 64 (exact scaling) and const vs none
-        if wk == 'ramp':
-            a = ml.LSML(prior=prv, tol=1e-3, random_state=1).fit(Q.copy(), weights=make_weights('ramp', len(Q)))
-            b = ml.LSML(prior=prv, tol=1e-3, random_state=1).fit(Q.copy(), weights=make_weights('ramp64', len(Q)))
-            c = ml.LSML(prior=prv, tol=1e-3, random_state=1).fit(Q.copy(), weights=make_weights('ramp', len(Q)) * 3.0)
-            evals += 3
-            if not np.array_equal(a.components_, b.components_):
-                viol.append(V(site, 'weight_scale', 'multiplying all weights by 64 changes the result', tr))
-            if np.abs(a.get_mahalanobis_matrix() - c.get_mahalanobis_matrix()).max() > 1e-9:
-                viol.append(V(site, 'weight_scale', 'multiplying all weights by 3 changes the result', tr))
-        if wk == 'const5':
-            a = ml.LSML(prior=prv, tol=1e-3, random_state=1).fit(Q.copy())
-            b = ml.LSML(prior=prv, tol=1e-3, random_state=1).fit(Q.copy(), weights=make_weights('const5', len(Q)))
-            evals += 2
-            if np.abs(a.get_mahalanobis_matrix() - b.get_mahalanobis_matrix()).max() > 1e-9:
-                viol.append(V(site, 'weight_scale', 'constant weights differ from no weights', tr))
+        try:
+            # weight scale invariance: ramp vs ramp x 64 (exact scaling) and const vs none
+            if wk == 'ramp':
+                a = ml.LSML(prior=prv, tol=1e-3, random_state=1).fit(Q.copy(), weights=make_weights('ramp', len(Q)))
+                b = ml.LSML(prior=prv, tol=1e-3, random_state=1).fit(Q.copy(), weights=make_weights('ramp64', len(Q)))
+                c = ml.LSML(prior=prv, tol=1e-3, random_state=1).fit(Q.copy(), weights=make_weights('ramp', len(Q)) * 3.0)
+                evals += 3
+                if not np.array_equal(a.components_, b.components_):
+                    viol.append(V(site, 'weight_scale', 'multiplying all weights by 64 changes the result', tr))
+                if np.abs(a.get_mahalanobis_matrix() - c.get_mahalanobis_matrix()).max() > 1e-9:
+                    viol.append(V(site, 'weight_scale', 'multiplying all weights by 3 changes the result', tr))
+            if wk == 'const5':
+                a = ml.LSML(prior=prv, tol=1e-3, random_state=1).fit(Q.copy())
+                b = ml.LSML(prior=prv, tol=1e-3, random_state=1).fit(Q.copy(), weights=make_weights('const5', len(Q)))
+                evals += 2
+                if np.abs(a.get_mahalanobis_matrix() - b.get_mahalanobis_matrix()).max() > 1e-9:
+                    viol.append(V(site, 'weight_scale', 'constant weights differ from no weights', tr))
+        except Exception as e:
+            viol.append(V(site, 'raises', 'fit raised %s: %s' % (type(e).__name__, str(e)[:120]), tr))
         return dict(evals=evals, sigs=sigs, viol=viol, states=states, transitions=trans, headroom={'gradient_norm_over_tol': head},
                     sample={'learner': 'LSML', 'dataset': dsn, 'prior': pr, 'weights': wk, 'quadruplets': qs, 'budgets': '1..%d, 1000' % K,
                             'tols': [1e-2, 1e-3, 1e-4]})
@@ -159,7 +162,7 @@ def run_case(spec):
     _, dsn, pr, K, seed = spec
     ds = data.dataset('R', seed) if dsn == 'R' else data.dataset(dsn)
     d = ds.d
-    prv = data.spd(d) if pr == 'array' else pr
+    prv = data.spd(d) if pr == 'array' else (np.asfortranarray(data.spd(d)) if pr == 'array_F' else pr)
     from checks.c08_supervised import Capture
     for s in (0, 1):
         for wk in ('none', 'ramp'):
